@@ -23,8 +23,10 @@ EXHAUSTIVE = {"quick": True, "thorough": True}
 
 LEAF = [Opt("v", "int", 0, 7), Opt("name", "str", 0, b"unnamed"), Opt("tags", "str", LIST, [b"a", b"b c"]), Opt("nums", "int", LIST, [b"1", b"2"])]
 INNER = LEAF + [Opt("inner", "sec", MULTI | TITLE, None, "-", LEAF), Opt("kv", "sec", KEYSTRVAL, None, "-", [])]
-SCHEMA = [Opt("top", "str", 0, b"/bin/sh"), Opt("outer", "sec", MULTI | TITLE, None, "-", INNER), Opt("plain", "sec", 0, None, "-", LEAF),
-          Opt("lst", "str", LIST, [b"x"])]
+# "outer2" is declared over the very same sub-option table as "outer" (cbs 'S': the harness hands cfg_init one array for both,
+# the way applications share a table between similar sections); the context's copies must still be separate
+SCHEMA = [Opt("top", "str", 0, b"/bin/sh"), Opt("outer", "sec", MULTI | TITLE, None, "-", INNER), Opt("outer2", "sec", MULTI | TITLE, None, "S", INNER),
+          Opt("plain", "sec", 0, None, "-", LEAF), Opt("lst", "str", LIST, [b"x"])]
 
 # operations per participant; %c = context slot
 OPS_CTX = [
@@ -45,8 +47,13 @@ OPS_CTX = [
     "VFS %c " + hx("outer=b") + " " + hx("inner|name") + " w",
     "PB %c " + hx(b'outer b { inner late1 { v = 5 name = x } }\nouter a { inner late2 { v = 6 } }\nouter c { inner late3 { v = 8 } }\n'),
     "SS %c " + hx("outer=a|inner=late2|name") + " 0 " + hx("set"),
+    # the twin section over the shared table: a callback registered for one of the two is the other's business in no way
+    "VF %c " + hx("outer2|v") + " v",
+    "PB %c " + hx(b'outer2 q { v = 2 inner j { v = 3 name = k } }\nouter r { v = 4 }\n'),
+    "VF %c " + hx("outer|inner|name") + " v",
+    "PB %c " + hx(b'outer2 q2 { inner j2 { name = m } tags = { t } }\n'),
 ]
-FOCUS = [0, 1, 11, 12, 13, 14, 9, 8]
+FOCUS = [0, 1, 11, 12, 13, 14, 9, 8, 15, 16, 17, 18]
 
 
 def mk(cid, seq):
